@@ -32,7 +32,8 @@ class LeafNode(TreeNode):
         """
         self.object = obj
         # self.__hash__ gets called so often we cache the result:
-        self.__hash = hash(obj)
+        # (NaN objects hash by identity, but every NaN leaf is the same datum; see __eq__)
+        self.__hash = hash(obj) if obj == obj else hash("NaN")
 
     def copy_from(self: C, children: Iterable["TreeNode"]) -> C:
         return self.__class__(self.object)
@@ -113,7 +114,10 @@ class LeafNode(TreeNode):
     def __eq__(self, other):
         if isinstance(other, LeafNode):
             # Python's bool is an int subclass (True == 1, False == 0), but a boolean is not a number as data
-            return isinstance(self.object, bool) == isinstance(other.object, bool) and self.object == other.object
+            if isinstance(self.object, bool) != isinstance(other.object, bool):
+                return False
+            # NaN != NaN in Python, but a document holding a NaN is still the same document as itself
+            return self.object == other.object or (self.object != self.object and other.object != other.object)
         else:
             return self.object == other
 
